@@ -44,9 +44,9 @@ CLAIMED = {
         note='Numeric order = iteration order is checked by the run only. bv_decide axioms as in C08. max_bits <= 63.',
         tech='Lean 4 proof (bv_decide word lemmas + list/path induction) + correspondence/oracle run'),
     "C11": dict(
-        text='Lean 4 theorems: fused; full_depth_exact (from the tree root with D >= max_depth and an accepting target: the leaves in order, then None for ever, never more than D+2 loop passes, no panic site); exact_size_remaining (the ExactSize counter started at Metadata::count reports the number of leaves not yet yielded after every call, never underflows, is 0 on None). Every run iterates every corpus type for every depth limit, every (sampled) node as root in several key representations, index/path capacities from 0 to sufficient, polling past the end.',
-        note='PARTIAL proof: roots below the tree root, depth limits below max_depth and targets without capacity (error items) rest on the correspondence + oracle run.',
-        tech='Lean 4 proof (corollaries of the C03 enumeration theorem) + correspondence and brute-force oracle'),
+        text="Lean 4 theorems for every well-formed type: limited_exact (for EVERY depth limit D and every target whose callbacks do not panic, polling yields, in order and once each, one item per leaf of the type cut off at depth D — depth_limited_items: exactly the leaves of depth <= D and the internal nodes at depth D — as the node with the transcoded target, or Err(depth) where the target refused the key at that depth; then None for ever; at most D+2 loop passes per call, no panic site); rooted_exact (iteration rooted at the node any key denotes = the leaves at or below it, by simulation with the subtree's iterator); full_depth_exact; exact_size_remaining; fused; targets_do_not_panic ((), index arrays of any capacity). Every run iterates every corpus type for every depth limit, every (sampled) node as root in several key representations, index/path capacities from 0 to sufficient, polling past the end.",
+        note="The combination 'rooted AND limited below the subtree's depth / without capacity' follows from the same lemmas (poll_lift, poll_init_G) but is not stated as its own theorem; it is covered by the runs.",
+        tech='Lean 4 proof (generalised enumeration theorem over the cut-off type, simulation for roots) + correspondence and brute-force oracle'),
 
     "C01": dict(
         text='Lean 4 theorems on the value-level walk model (every container/wrapper/attribute, every runtime state, every key source, arbitrary (de)serializer): failed_access_changes_nothing; read_never_modifies; at_most_one_leaf_changes (frame: after any access the tree is identical except for the value of at most one leaf); read_after_write (after a write that stored v, every successful read through the same key or any step-wise equivalent key source returns v, also after the documented exceptions); chain_equivalent. Every run executes random read/write histories on every instance and compares whole-tree snapshots with the Lean model and an independent Python reference interpreter; the hypotheses (Tree.WF) are evaluated on every corpus instance.',
